@@ -111,7 +111,7 @@ func c10specs() []gw.Spec {
 		auth := auth
 		cfg := gw.DefaultConfig()
 		cfg.Auth = auth
-		out = append(out, gw.Spec{Name: fmt.Sprintf("auth=%t", auth), Cfg: cfg, NoSettle: true, NewMonitor: func() gw.Monitor {
+		out = append(out, gw.Spec{Name: fmt.Sprintf("auth=%t", auth), Cfg: cfg, NoSettle: true, Livelock: true, NewMonitor: func() gw.Monitor {
 			return &c10mon{alphabet: connAlphabet(), maxDepth: depth}
 		}})
 	}
